@@ -98,6 +98,14 @@ static inline HttpHdrCc *symbolicCc(const char *name, const bool withLists)
 }
 static inline bool ccHas(const HttpHdrCc *cc, const HttpHdrCcType t) { return cc && ((cc->mask >> t) & 1); }
 
+// vacuity label chosen by a (possibly symbolic) condition. optnone: clang otherwise merges the two calls into one call whose
+// argument is a select between (or a relative lookup table of) string literals, which the engine cannot resolve to a label
+__attribute__((optnone, noinline)) static void reachEither(const bool c, const char *yes, const char *no)
+{
+    if (c) vf_reach(yes);
+    else if (no) vf_reach(no);
+}
+
 template <class T> static inline T *rawObject() { return static_cast<T *>(xcalloc(1, sizeof(T))); }
 // RefCount<T> has exactly one member (the raw pointer); written directly because a never-constructed object has no
 // working Lock base; the objects are never destroyed
